@@ -1,9 +1,11 @@
-import os, json, subprocess
+import os, json, subprocess, sys
+sys.path.insert(0, os.path.join(os.environ.get('VERIF_ROOT', '/verif'), 'harness', 'C02'))
+import il          # instruction-level leg of the real PTG runtime (harness/C02/il.py, c02_il.c), here on parsec_compose()d pools
 META = dict(
-    engine='rt',
-    technique='stateless model checking at task granularity: a harness-owned scheduler enumerates every task-level execution order of the real runtime running parsec_compose()d PTG taskpools (one stream), plus a deviation-bounded enumeration for long compositions and a free-running configuration box',
-    level_text='For every composition of n<=3 ptgpp-generated chain taskpools (every assignment of 6 pool shapes for n<=2 and 5 for n=3 (quick) / 8 (thorough), 3 driver modes: add-then-start, start-then-add, taskpool_wait on the compound) EVERY task-level execution order on one execution stream is executed on the real runtime; for n in {5,16,17,20} (across the realloc boundary of parsec_compose) every order with <= 1 (quick) / 2 (thorough) deviations from the canonical order; in each execution: every task ran once, the last exit stamp of pool i precedes the first entry stamp of pool i+1, context_wait returned after all of them, the compound completion callback ran exactly once after the last task, taskpool_wait(compound) returned after the last task. Threads {1,2,4} x schedulers {default, ap, ll} run the same oracle free-running.',
-    level_note='Task bodies and runtime actions are atomic at this level (instruction-level atomicity of the primitives is C07/C10/C30..); single process (hk-shm, MPI off); pools are W independent chains of L CTL-linked tasks, W<=4, L<=3. The free-running legs enumerate configurations, not schedules. A crash / failed assertion / hang of the runtime on a case is reported as a violation with that case.',
+    engine='rt+cosched',
+    technique='stateless model checking at task granularity: a harness-owned scheduler enumerates every task-level execution order of the real runtime running parsec_compose()d PTG taskpools (one stream), plus a deviation-bounded enumeration for long compositions and a free-running configuration box; plus (legs il-*-compose*) preemption-bounded exhaustive instruction-level schedule enumeration (cosched) of two execution streams running a compound of 3 (thorough also 4) real generated PTG taskpools',
+    level_text='For every composition of n<=3 ptgpp-generated chain taskpools (every assignment of 6 pool shapes for n<=2 and 5 for n=3 (quick) / 8 (thorough), 3 driver modes: add-then-start, start-then-add, taskpool_wait on the compound) EVERY task-level execution order on one execution stream is executed on the real runtime; for n in {5,16,17,20} (across the realloc boundary of parsec_compose) every order with <= 1 (quick) / 2 (thorough) deviations from the canonical order; in each execution: every task ran once, the last exit stamp of pool i precedes the first entry stamp of pool i+1, context_wait returned after all of them, the compound completion callback ran exactly once after the last task, taskpool_wait(compound) returned after the last task. Threads {1,2,4} x schedulers {default, ap, ll} run the same oracle free-running. Legs il-*-compose3 (thorough also compose4): parsec_compose of 3 (4) one-task / two-task PTG pools x 2 dependency back-ends on two controlled execution streams (stream 0: add_taskpool(compound) + context_wait; stream 1: worker loop; next_task retention off so that the pool enabled by a completion callback can run on the other stream while the callback is still executing), every interleaving with <= 1 preemption (thorough <= 2) at instrumented accesses to the compound (completed_taskpools, pending actions, monitor), the member pools counters / dependency tables / repositories, the scheduler queue and active_taskpools: same oracle (each task once, pools strictly one after another, compound callback once after the last task and before context_wait returns, no hang, no failed assertion).',
+    level_note='Task bodies and runtime actions (completion callbacks included) are atomic in the task-level legs (instruction-level atomicity of the primitives is C07/C10/C30..; the il legs interleave the callbacks with the other stream at instruction level, 2 streams, sequential consistency, bounds as stated); single process (hk-shm, MPI off); pools are W independent chains of L CTL-linked tasks, W<=4, L<=3. The free-running legs enumerate configurations, not schedules. A crash / failed assertion / hang of the runtime on a case is reported as a violation with that case.',
 )
 RULE = ("hsched DFS: one execution = one complete run (compose, add, start, wait) of the real runtime under one choice list of the "
         "harness scheduler (every select() with >1 pending ready tasks is a choice point, pending tasks in canonical order); states = nodes of the choice tree; "
@@ -22,12 +24,29 @@ def _exe(ctx):
         sys.stderr.write(r.stdout + r.stderr); raise vlib.Broken('ptgpp failed on chain.jdf')
     return ctx.compile('hk-shm', 'compose', ['compose_h.c', os.path.join(gen, 'chain.c')], instr=False,
                        cflags=['-I' + gen, '-I/verif/engine/rt', '-I/repo/parsec', '-Wno-unused-but-set-variable'])
+IL_PROGS = ['il_one', 'il_two']
 def check(ctx):
     import vlib
+    from concurrent.futures import ThreadPoolExecutor
+    fut = ThreadPoolExecutor(1).submit(il.build, ctx, IL_PROGS)      # il executables built in the background
     exe = _exe(ctx)
     q = ctx.tier == 'quick'
-    args = ['--outdir', vlib.OUT, '--jobs', str(min(vlib.NJOBS, 12)), '--deadline', str(40 if q else 900)] + ([] if q else ['--thorough'])
-    ctx.run_engine(exe, args, label='compose', timeout=(600 if q else 2400))
-    return ctx.finish(RULE, ASSUME)
+    common = ['--outdir', vlib.OUT, '--jobs', str(min(vlib.NJOBS, 12))] + ([] if q else ['--thorough'])
+    # order: the schedule-exhaustive legs first (task-level DFS legs of compose_h, then the instruction-level il legs), the
+    # free-running box ("threads") last: the first reported violation then has a deterministic replay
+    for leg, dl in (('empty', 10 if q else 30), ('bounded', 15 if q else 120), ('orders', 30 if q else 420)):
+        if not ctx.violations:
+            ctx.run_engine(exe, common + ['--leg', leg, '--deadline', str(dl)], label='compose-' + leg, timeout=dl + 600)
+    B = fut.result()
+    if not ctx.violations:
+        il.run(ctx, B, c01_only=True, names=IL_PROGS, compose=3)
+        if not q and not ctx.violations:
+            il.run(ctx, B, c01_only=True, names=['il_one'], compose=4)
+    if not ctx.violations:
+        dl = 30 if q else 250
+        ctx.run_engine(exe, common + ['--leg', 'threads', '--deadline', str(dl)], label='compose-threads', timeout=dl + 600)
+    return ctx.finish(RULE + '; ' + il.RULE, ASSUME + il.ASSUME)
 def replay(ctx, path, obj):
+    if obj.get('engine') == 'cosched':
+        return il.replay(ctx, path, obj)
     return subprocess.call([_exe(ctx), '--replay', path])
